@@ -47,6 +47,25 @@ def strategy(draw, kinds, max_steps=8):
         c["degenerate"] = True
         c["force_dt"] = draw(st.sampled_from([1.0, 1.0, 0.1, None]))  # a plain step length (not scaled to the astronomically large flux)
         c["area"], c["amount"] = 1.0, 1.0
+    if c["kind"].endswith("noniso") and not c.get("degenerate") and draw(st.integers(0, 11)) == 0:
+        # a temperature programme that OVERFLOWS to +inf at state j >= 1 (exponential type, resolved in the check): an infinite feed
+        # temperature is not a state either - for vapour-pressure equations that stay finite at T = inf (Frost) nothing but the
+        # temperature itself can signal it
+        c["steps"] = draw(st.integers(2, 4))
+        c["overflow_program"] = {"at": draw(st.integers(1, c["steps"] - 1))}
+        c["program"] = None
+        c["removal"] = draw(gen.loguniform(1e-4, 0.05))
+        c["coarse"] = False
+        return c
+    if not c.get("degenerate") and draw(st.integers(0, 11)) == 0:
+        # EXHAUSTION BOUNDARY: the step length is resolved in the check so that step 0 removes the component that runs out first
+        # (1 + eps) times - a few ppm, or a few roundings, beyond / short of what the feed holds: the next state has a fraction just
+        # outside [0,1] (must raise) or just inside (fine)
+        c["exhaust"] = {"eps": draw(gen.signed_log(1e-14, 1e-3))}
+        c["steps"] = draw(st.integers(2, 3))
+        c["program"] = None
+        c["coarse"] = True
+        return c
     if not c.get("degenerate") and draw(st.integers(0, 9)) == 0:
         # NON-SELECTIVE membrane (permeate composition = feed composition, resolved in the check from the feed partial pressures):
         # the feed composition stays put, so BOTH components are over-drawn at the same step and the feed runs out CUMULATIVELY
@@ -132,7 +151,7 @@ def check(case):
     if case.get("nonselective"):
         case = _resolve_nonselective(case)
     s = procs.setup(case)
-    classes = procs.classes_of(case) + ["coarse" if case.get("coarse") else "fine"] + (["non-selective"] if case.get("nonselective") else [])
+    classes = procs.classes_of(case) + ["coarse" if case.get("coarse") else "fine"] + (["non-selective"] if case.get("nonselective") else []) + (["exhaustion-boundary"] if case.get("exhaust") else []) + (["overflowing-programme"] if case.get("overflow_program") else [])
     try:
         with Trace(s.pv, cap=60000, keep=False):
             try:
@@ -143,7 +162,23 @@ def check(case):
                 dt = 1.0  # zero total flux: no flux scale exists, any step length will do
             if case.get("force_dt"):
                 dt = case["force_dt"]
-            model = procs.run(case, s, dt)
+            if case.get("exhaust"):
+                j = procs.step0_fluxes(case, s)
+                if is_raised(j) or not all(math.isfinite(float(v)) and float(v) > 0 for v in j):
+                    raise Discard("no positive step-0 fluxes")
+                held = (case["amount"] * s.w0, case["amount"] * (1.0 - s.w0))
+                dt = min(held[i] / (case["area"] * float(j[i])) for i in (0, 1)) * (1.0 + case["exhaust"]["eps"])
+                if not (math.isfinite(dt) and dt > 0):
+                    raise Discard("step length not representable")
+            spec = None
+            if case.get("overflow_program"):
+                spec = procs.conditions_spec(case, s, dt)
+                span = case["overflow_program"]["at"] * dt
+                if not (1e-12 < span < 1e8):
+                    raise Discard("step length out of range for the overflowing programme")
+                # T(x) = T0 exp(800 (x / span)^20): T0 (within 1e-3 K) before `span`, +inf from `span` on
+                spec["program"] = {"type": "exponential", "coefficients": [case["T"]] + [0.0] * 20 + [800.0 / span ** 20]}
+            model = procs.run(case, s, dt, cond_spec=spec)
     except EvaluationCap:
         raise Discard("evaluation cap reached (termination is C10's subject)")
     n = case["steps"]
